@@ -100,6 +100,11 @@ impl Ctx<'_> {
         self.calls += 1;
         cli::run(&self.exe, self.dir, args, None)
     }
+    fn run_in(&mut self, cwd: &Path, args: &[String], stdin: Option<&[u8]>) -> std::process::Output {
+        infra::watch_touch();
+        self.calls += 1;
+        cli::run(&self.exe, cwd, args, stdin)
+    }
 }
 
 fn s(x: &str) -> String {
@@ -275,6 +280,97 @@ fn exec(j: &Job, rep: &mut Report) -> Option<(Value, String)> {
     if let Some((k, d)) = verify(&mut cx, "a.mla", pk, &files, "create") {
         return fail(&k, d);
     }
+    // other forms of the same commands: archive written to stdout, file list read from stdin, tar written
+    // to stdout, extraction into the default output directory (cwd), repair allowing unauthenticated data
+    {
+        let mut base = vec![s("create")];
+        base.extend(j.lay.args().into_iter().map(s));
+        if j.lay.encrypted() {
+            base.extend(key_args("-p", &rkeys));
+        }
+        // create -o - (stdout)
+        let mut a = base.clone();
+        a.extend([s("-o"), s("-")]);
+        a.extend(files.keys().cloned());
+        let o = cx.run(&a);
+        if !o.status.success() || std::fs::write(dir.join("stdout.mla"), &o.stdout).is_err() {
+            return fail("create_to_stdout_fails", format!("mlar {a:?}: {:?} {}", o.status.code(), tail(&o.stderr)));
+        }
+        // create with the file list on stdin
+        let mut a = base.clone();
+        a.extend([s("-o"), s("stdin.mla"), s("-")]);
+        let list: String = files.keys().map(|n| format!("{n}\n")).collect();
+        let o = cx.run_in(dir, &a, Some(list.as_bytes()));
+        if !o.status.success() {
+            return fail("create_from_stdin_list_fails", format!("mlar {a:?}: {:?} {}", o.status.code(), tail(&o.stderr)));
+        }
+        for arch in ["stdout.mla", "stdin.mla"] {
+            let mut a = vec![s("list"), s("-i"), s(arch)];
+            if let Some(k) = pk {
+                a.extend([s("-k"), s(k)]);
+            }
+            let o = cx.run(&a);
+            let want: String = files.keys().map(|n| format!("{n}\n")).collect();
+            if !o.status.success() || String::from_utf8_lossy(&o.stdout) != want {
+                return fail("alternate_create_form_differs", format!("{arch}: mlar {a:?}: status {:?}, stdout {:?}", o.status.code(), tail(&o.stdout)));
+            }
+            // content through cat of the last file
+            if let Some((n, d)) = files.iter().next_back() {
+                let mut a = vec![s("cat"), s("-i"), s(arch)];
+                if let Some(k) = pk {
+                    a.extend([s("-k"), s(k)]);
+                }
+                a.extend([s("--"), n.clone()]);
+                let o = cx.run(&a);
+                if !o.status.success() || o.stdout != *d {
+                    return fail("alternate_create_form_differs", format!("{arch}: cat {n:?} gives {} bytes instead of {}", o.stdout.len(), d.len()));
+                }
+            }
+        }
+        // to-tar -o -
+        let mut a = vec![s("to-tar"), s("-i"), s("a.mla"), s("-o"), s("-")];
+        if let Some(k) = pk {
+            a.extend([s("-k"), s(k)]);
+        }
+        let o = cx.run(&a);
+        let mut seen: Files = BTreeMap::new();
+        let mut ar = tar::Archive::new(&o.stdout[..]);
+        if let Ok(entries) = ar.entries() {
+            for e in entries.flatten() {
+                let mut e = e;
+                let path = e.path().map(|p| p.to_string_lossy().to_string()).unwrap_or_default();
+                let mut d = Vec::new();
+                let _ = std::io::Read::read_to_end(&mut e, &mut d);
+                seen.insert(path, d);
+            }
+        }
+        if !o.status.success() || seen != files {
+            return fail("tar_to_stdout_differs", format!("mlar {a:?}: status {:?}, {} entries for {} files", o.status.code(), seen.len(), files.len()));
+        }
+        // extract into the default output directory
+        let cwd = dir.join("cwd-extract");
+        std::fs::create_dir_all(&cwd).ok()?;
+        let mut a = vec![s("extract"), s("-i"), s("../a.mla")];
+        if let Some(k) = pk {
+            a.extend([s("-k"), format!("../{k}")]);
+        }
+        let o = cx.run_in(&cwd, &a, None);
+        if !o.status.success() || files.iter().any(|(n, d)| std::fs::read(cwd.join(n)).ok().as_ref() != Some(d)) {
+            return fail("extract_to_default_dir_differs", format!("mlar {a:?} in {cwd:?}: status {:?} {}", o.status.code(), tail(&o.stderr)));
+        }
+        // repair of the intact archive, unauthenticated data allowed
+        let mut a = vec![s("repair"), s("-l"), s("-i"), s("a.mla"), s("-o"), s("repair-unauth.mla"), s("--allow-unauthenticated-data")];
+        if let Some(k) = pk {
+            a.extend([s("-k"), s(k)]);
+        }
+        let o = cx.run(&a);
+        if !o.status.success() {
+            return fail("repair_fails", format!("mlar {a:?}: {:?} {}", o.status.code(), tail(&o.stderr)));
+        }
+        if let Some((k, d)) = verify(&mut cx, "repair-unauth.mla", None, &files, "repair-unauth") {
+            return fail(&format!("after_repair_unauth:{k}"), d);
+        }
+    }
     // convert to every other layer/key choice, and repair of the intact archive; then the same readers
     let targets: Vec<Lay> = Lay::ALL.iter().copied().filter(|l| *l != j.lay).collect();
     for (ti, t) in targets.iter().enumerate() {
@@ -426,7 +522,7 @@ pub fn run(started: Instant) -> i32 {
         rep,
         Meta {
             level: "exploration",
-            rule: "7 generated file trees (empty files, nested directories, unicode and spaces, sizes around the chunk and block sizes, path lengths 99/100/101/156/260 bytes) x layer options {none, compress, encrypt, both (options in either order), default} x levels x key sets, with the mlar binary built from the working tree (scaled constants; plus trees with files of 128 KiB+-1 and 4 MiB+-1 on the production-constant binary). Pipeline per job: keygen; create (file list or directory recursion); then list, list -vv (humansize + SHA-256), cat of every file, extract (linear and --glob '*', no extra files), extract of one name, to-tar (entries parsed with the tar crate); convert to each other layer/key choice and repair of the intact archive, each followed by the same readers; create|convert|repair chains; negative runs (wrong key, missing key, key for an unencrypted archive) for list/extract/cat/to-tar/convert(/repair) must exit non-zero and leave no output content. transitions = mlar invocations".to_string(),
+            rule: "7 generated file trees (empty files, nested directories, unicode and spaces, sizes around the chunk and block sizes, path lengths 99/100/101/156/260 bytes) x layer options {none, compress, encrypt, both (options in either order), default} x levels x key sets, with the mlar binary built from the working tree (scaled constants; plus trees with files of 128 KiB+-1 and 4 MiB+-1 on the production-constant binary). Pipeline per job: keygen; create (file list or directory recursion; also to stdout and with the file list on stdin); then list, list -vv (humansize + SHA-256), cat of every file, extract (linear and --glob '*', no extra files), extract of one name, to-tar (file and stdout; entries parsed with the tar crate); extract into the default directory; repair with --allow-unauthenticated-data; convert to each other layer/key choice and repair of the intact archive, each followed by the same readers; create|convert|repair chains; negative runs (wrong key, missing key, key for an unencrypted archive) for list/extract/cat/to-tar/convert(/repair) must exit non-zero and leave no output content. transitions = mlar invocations".to_string(),
             exhaustive: true,
             bounds: json!({"jobs": js.len()}),
             assumptions: vec!["human-readable sizes are formatted with the same humansize crate as the tool".to_string()],
